@@ -231,6 +231,9 @@ func checkExcerptIndexPairing(c *Ctx) {
 		return pred(n, ci.Common())
 	}
 	isIndexWrite := func(i ssa.Instruction) bool {
+		if ci, ok := i.(ssa.CallInstruction); ok && callReaches(ci, func(n string) bool { return strings.HasSuffix(n, ".IndexOne") }, 0) {
+			return true
+		}
 		return callMatches(i, func(n string, cc *ssa.CallCommon) bool {
 			if strings.HasSuffix(n, ".IndexOne") || n == "cache.SubCache.entityUpdated" {
 				return true
